@@ -7,7 +7,7 @@ import importlib
 import numpy as np
 
 from .common import Result, Timer
-from .gen import abstract_cell
+from .gen import abstract_cell, redistance
 
 
 def fake_cutoff(cell, cutoff):
@@ -195,34 +195,41 @@ def corr_perm_stage(rng, drv, n_cases=24, sizes=((10, 12), (6, 8), (4, 6)), forc
             nb = None
             if order >= 3 and rng.random() < 0.6:
                 nb = rng.choice([2, 3, 5])
-            fc = fake_cutoff(c, cutoff) if use_cut else None
-            j = c.to_json(with_cut=cutoff) if use_cut else c.to_json()
-            try:
-                ptr, c_pt = capture_perm_decompr(order, c.tp, fc_cutoff=fc, n_batch=nb)
-                impl = ptr.tolist()
-            except (ValueError, IndexError):
-                # zero batch size (`range(0, n, 0)`) or an empty combination list (`combinations[:, 0]`)
-                impl = "ValueError"
-            nbj = {} if nb is None else {"n_batch": nb, "n_batch3": nb, "n_batch4": nb}
-            m = drv.ask({"op": "perm_decompr", "n": order, "nbatch": nbj, **j})
-            res.case([j, order, nb], c.n_lp >= 2,
-                     sample={"cell": c.describe(), "order": order, "cutoff": cutoff, "n_batch": nb})
-            res.count(f"order{order}")
-            res.count("cutoff" if use_cut else "nocutoff")
-            res.count("batched" if nb else "unbatched")
-            if impl == "ValueError" or m == "ValueError":
-                res.count("zero_batch_size")
-                if impl != m:
-                    res.fail("zero batch size handling differs", input=j, order=order, n_batch=nb, impl=str(impl)[:40], model=str(m)[:40])
-                continue
-            if impl != m["ptr"]:
-                bad = [i for i, (a, b) in enumerate(zip(impl, m["ptr"])) if a != b][:10]
-                res.fail(f"perm_decompr_idx O{order} differs", input=j, order=order, n_batch=nb,
-                         first_diff=bad, impl=[impl[i] for i in bad], model=[m["ptr"][i] for i in bad])
-                continue
-            lab, vals_ok = canonical_labels_from_cpt(c_pt)
-            if lab.tolist() != m["labels"]:
-                res.fail(f"c_pt partition O{order} differs from model components", input=j, order=order, n_batch=nb)
-            if not vals_ok:
-                res.fail(f"c_pt values are not 1/sqrt(count) with one entry per row", input=j, order=order)
+            cells = [c]
+            if use_cut and k % 2 == 0:
+                # a sibling right afterwards: same atoms, same translation permutations, same cutoff VALUE, other
+                # distances (the same supercell at another volume) — the result must follow the distances
+                cells.append(redistance(rng, c, n_shells=3))
+                res.count("sibling_same_tp_other_distances")
+            for c in cells:
+                fc = fake_cutoff(c, cutoff) if use_cut else None
+                j = c.to_json(with_cut=cutoff) if use_cut else c.to_json()
+                try:
+                    ptr, c_pt = capture_perm_decompr(order, c.tp, fc_cutoff=fc, n_batch=nb)
+                    impl = ptr.tolist()
+                except (ValueError, IndexError):
+                    # zero batch size (`range(0, n, 0)`) or an empty combination list (`combinations[:, 0]`)
+                    impl = "ValueError"
+                nbj = {} if nb is None else {"n_batch": nb, "n_batch3": nb, "n_batch4": nb}
+                m = drv.ask({"op": "perm_decompr", "n": order, "nbatch": nbj, **j})
+                res.case([j, order, nb], c.n_lp >= 2,
+                         sample={"cell": c.describe(), "order": order, "cutoff": cutoff, "n_batch": nb})
+                res.count(f"order{order}")
+                res.count("cutoff" if use_cut else "nocutoff")
+                res.count("batched" if nb else "unbatched")
+                if impl == "ValueError" or m == "ValueError":
+                    res.count("zero_batch_size")
+                    if impl != m:
+                        res.fail("zero batch size handling differs", input=j, order=order, n_batch=nb, impl=str(impl)[:40], model=str(m)[:40])
+                    continue
+                if impl != m["ptr"]:
+                    bad = [i for i, (a, b) in enumerate(zip(impl, m["ptr"])) if a != b][:10]
+                    res.fail(f"perm_decompr_idx O{order} differs", input=j, order=order, n_batch=nb,
+                             first_diff=bad, impl=[impl[i] for i in bad], model=[m["ptr"][i] for i in bad])
+                    continue
+                lab, vals_ok = canonical_labels_from_cpt(c_pt)
+                if lab.tolist() != m["labels"]:
+                    res.fail(f"c_pt partition O{order} differs from model components", input=j, order=order, n_batch=nb)
+                if not vals_ok:
+                    res.fail(f"c_pt values are not 1/sqrt(count) with one entry per row", input=j, order=order)
     return res
